@@ -472,6 +472,9 @@ def _unhoist_locals(fn, pinned_locals, params):
                         continue
                     fresh = isinstance(expr, (ast.Dict, ast.List, ast.Set, ast.ListComp, ast.SetComp, ast.DictComp, ast.GeneratorExp)) or \
                         (isinstance(expr, ast.Call) and (expr.func.attr if isinstance(expr.func, ast.Attribute) else getattr(expr.func, 'id', None)) in FRESH_CALLS)
+                    if fresh and any(_loops_between(fn, st, use) for use in all_uses):
+                        # a new object per evaluation: moving it into a loop (or a comprehension / lambda) the binding is outside of would make one object many
+                        continue
                     if not _is_alias(expr) and (any(_mutated_through(fn, n) for n in names) or (fresh and len(all_uses) > 1)):
                         # the name holds an object of its own (a container being filled, a generator consumed once): not just a name for an expression
                         continue
@@ -507,6 +510,26 @@ def _unhoist_locals(fn, pinned_locals, params):
                     progress = True
                     break
     return done
+
+
+def _loops_between(fn, binding, use):
+    """The use sits in a loop / comprehension / lambda / nested function that does not contain the binding statement."""
+    chain = []
+
+    def find(node, path):
+        if node is use:
+            chain.extend(path)
+            return True
+        for child in ast.iter_child_nodes(node):
+            if find(child, path + [node]):
+                return True
+        return False
+    find(fn, [])
+    for anc in chain:
+        if isinstance(anc, (ast.For, ast.While, ast.ListComp, ast.SetComp, ast.DictComp, ast.GeneratorExp, ast.Lambda) + FUNC_TYPES) and anc is not fn:
+            if not _contains(anc, binding):
+                return True
+    return False
 
 
 FRESH_CALLS = {'dict', 'list', 'set', 'sorted', 'defaultdict', 'OrderedDict', 'Counter', 'deque', 'copy', 'deepcopy', 'split', 'splitlines', 'iter', 'zip', 'enumerate',
@@ -820,6 +843,35 @@ def _display(node):
     return False
 
 
+READ_ONLY_METHODS = {'get', 'items', 'keys', 'values', 'index', 'count', 'copy', 'union', 'intersection', 'difference', 'issubset', 'issuperset', 'isdisjoint'}
+READ_ONLY_CALLS = {'len', 'sorted', 'list', 'tuple', 'set', 'frozenset', 'dict', 'enumerate', 'zip', 'any', 'all', 'max', 'min', 'sum', 'iter', 'reversed', 'map', 'filter'}
+
+
+def _read_only_uses(tree, name, binding):
+    """Every use of a module-level table is a plain read (subscript, iteration, membership, read-only method, argument of a builtin that only reads):
+    it is never given another name or handed to code that could write into it."""
+    parents = {}
+    for node in ast.walk(tree):
+        for child in ast.iter_child_nodes(node):
+            parents[id(child)] = node
+    for n in ast.walk(tree):
+        if not (isinstance(n, ast.Name) and n.id == name and isinstance(n.ctx, ast.Load)):
+            continue
+        p = parents.get(id(n))
+        if isinstance(p, ast.Subscript) and p.value is n and isinstance(p.ctx, ast.Load):
+            continue
+        if isinstance(p, (ast.For, ast.comprehension)) and p.iter is n:
+            continue
+        if isinstance(p, ast.Compare) and n in p.comparators and all(isinstance(o, (ast.In, ast.NotIn)) for o in p.ops):
+            continue
+        if isinstance(p, ast.Attribute) and p.value is n and p.attr in READ_ONLY_METHODS and isinstance(parents.get(id(p)), ast.Call) and parents[id(p)].func is p:
+            continue
+        if isinstance(p, ast.Call) and n in p.args and isinstance(p.func, ast.Name) and p.func.id in READ_ONLY_CALLS:
+            continue
+        return False
+    return True
+
+
 def _module_constants(module, pinned_names, roles=None):
     """A new module-level name bound once to a literal or a read-only table of literals: a function of the pinned tree that has a local bound to the very
     same value gets that local back (`name = <value>` at its top, uses renamed); elsewhere the value is written in place of the name."""
@@ -837,7 +889,7 @@ def _module_constants(module, pinned_names, roles=None):
                     or (isinstance(n, FUNC_TYPES + (ast.ClassDef,)) and n.name == name)]
         if len(bindings) != 1:
             continue
-        if not _literal(st.value) and _mutated_through(tree, name):
+        if not _literal(st.value) and (_mutated_through(tree, name) or not _read_only_uses(tree, name, st)):
             continue
         shape = 'Assign: FOCUS_ = ' + ast.unparse(st.value)
         count = 0
@@ -980,6 +1032,7 @@ _MUST_KEEP = [
     ('value captured for a closure', 'n', 'def f(xs):\n    n = len(xs)\n    g = lambda: n\n    xs.append(0)\n    return g\n'),
     ('use not dominated by the binding', 't', 'def f(c, a):\n    if c:\n        t = a.b\n    return t if c else None\n'),
     ('call with an effect moved past another statement', 'r', 'def f(a, log):\n    r = a.compute()\n    log.write("x")\n    return r\n'),
+    ('one template object named inside a loop', 'template', 'def f(items, extra):\n    template = {k: v for k, v in extra.items()}\n    out = []\n    for it in items:\n        node = template\n        node.update(it)\n        out.append(node)\n    return out\n'),
     ('setdefault whose result is used', 'got', 'def f(d, k):\n    got = d.setdefault(k, [])\n    got.append(1)\n    return got\n'),
     ('two-armed choice then mutated test', 'v', 'def f(d, k):\n    if k in d:\n        v = d[k]\n    else:\n        v = 0\n    d[k] = 1\n    return v\n'),
 ]
